@@ -11,7 +11,7 @@ def run(ctx):
                         "N-D distance bound: sqrt(2 * 16 (ftol |f0| + 64 eps |f0|) / lambda_min)"]
     out = os.path.join(ctx.work, "nm.out")
     cfg = os.path.join(ctx.work, "MC_NelderMead.cfg")
-    open(cfg, "w").write(open(os.path.join(vf.SPEC, "MC_NelderMead.cfg")).read().replace("MAXIT = 6", "MAXIT = 6" if ctx.quick() else "MAXIT = 7"))
+    open(cfg, "w").write(open(os.path.join(vf.SPEC, "MC_NelderMead.cfg")).read().replace("WIDE = FALSE", "WIDE = FALSE" if ctx.quick() else "WIDE = TRUE"))
     ctx.mc("MC_NelderMead", cfg, env={"OUT": out})
     vec = os.path.join(ctx.work, "vectors.ndjson")
     n = 0
